@@ -77,6 +77,11 @@ CHECKS = {
    text="Specification -> code, exhaustive: TLC enumerates every status assignment absent/live/deleted/expired of a key universe with nested prefixes (a, ab, abc, b [, bc]: 256 states quick, 1024 thorough) and, for each, every PrefixScan(prefix, offset, limit) with prefix in {'', a, ab, b, c}, offset 0..n+1, limit -1..n+1 and every PrefixSearchScan(prefix, regexp, 0, limit) over 4 regular expressions (89 600 queries quick); the replayer builds each state in a fresh bucket (puts, deletes, expired PutWithTimestamp) in HintKeyValAndRAMIdxMode and HintKeyAndRAMIdxMode and runs the queries; TLC validates every recorded page against KVSpec!PageOK (live keys with the prefix, ascending, after skipping offset, at most limit) on the state rebuilt from the recorded writes. Random histories with paged scans over a 41-key universe (several B+ tree leaves, rotations, reopen) are validated the same way.",
    note="Trusts TLC and the recording wrapper; the regular-expression predicate is computed with Go's regexp and passed as a match set. Sparse index mode is not yet covered by this check. For limit 0 the statement fixes no count and any prefix of the remaining keys is admitted.",
    technique="TLC-enumerated (state, query) pairs replayed into the code + TLA+ trace validation of the recordings"),
+ "C20": dict(
+   cat="model_checking", design="DESIGN.md section 6 C20",
+   text="Specification -> code, exhaustive over the enumerated domain: ApiTotal.tla lists every exported method of Tx (57, including the on-disk lookup helpers) and DB (Update, View, Begin, Merge, Backup, Close) with its parameter kinds, and TLC emits one call per method x lifecycle state (writable / read-only transaction, committed, rolled back, the same after the database was closed; database open / closed) x tuple of boundary-heavy argument tokens ((bucket,key) pairs with nil, empty, separator-containing and missing names; ints MinInt64, -5..5, MaxInt64; NaN and infinite scores; invalid regexp; nil and odd option structs; extreme TTL/timestamps): 5 900 calls quick, 12 494 thorough. The replayer executes each on a preloaded multi-file database under recover() and a watchdog, follows every call in a writable transaction by Commit, and records outcome classes; TLC (ApiTotalTrace) accepts a call iff it returned, the Commit returned, and calls on finished transactions or a closed database returned an error. Panics recorded by the random drivers (fail, merge, intx families) count too.",
+   note="Trusts TLC and the replayer's recover()/watchdog. Open() with odd Options is outside the statement (methods of DB and Tx).",
+   technique="TLC-enumerated calls (ApiTotal.tla) replayed into the code + TLA+ trace validation of the outcome classes"),
  "C01": dict(
    cat="model_checking", design="DESIGN.md section 6 C01",
    text="Trace validation: seeded random KV histories (multi-bucket, TTL on both sides of expiry, segments of 128-512 bytes so nearly every transaction rotates, reopen) are executed on the real library in HintKeyValAndRAMIdxMode and HintKeyAndRAMIdxMode x FileIO and MMap, every call is recorded, and TLC accepts the trace only if every Get/GetAll/RangeScan/PrefixScan/PrefixSearchScan result equals the KVSpec ordered-map-with-TTL result on the specification state (Nuts.tla). The API-grain design is model-checked exhaustively for a small universe (NutsMC_kv.cfg).",
